@@ -24,8 +24,9 @@ absent or already vacated (`C14_dated_no_clobber_partial`); and these invariants
 (`C14_dated_restart_partial`) — but the *sequence* and the *backup bound* do not: the files of earlier days / of every
 earlier run are not recovered, so they are neither counted nor deleted first (F15, `C14_F15_restart_bound_fails`).
 `C14_any_scheme_write`: what holds for every scheme with no premise at all.
-F16: `_rotate_files` deletes one file per rotation, so a set of recovered files larger than `max_backup_files`
-never shrinks to it.
+F18 (repaired in /repo by `if` → `while`; the model is parametric in `deletesAllExcess`): with one deletion per rotation a
+set of recovered files larger than `max_backup_files` never shrinks to it; with the repaired loop
+`C14_index_backup_bound_after_rotation` holds.
 -/
 namespace Rot
 
@@ -82,13 +83,11 @@ theorem run_sequence (P : Params) (z : Nat → Int) : ∀ (ops : List Op) (w : W
     | write st ts =>
       simp only [run, written, step]
       simp only [step] at ih
-      rcases write_diskSeq P z w st ts h with he | ⟨_, _, b, t, _, he⟩
-      · rw [he] at ih
-        simpa using ih
-      · have h1 : diskSeq (write P z w st ts) ++ written ops <:+ diskSeq w ++ st :: written ops := by
-          refine ⟨content w.fs b, ?_⟩
-          rw [← List.append_assoc, ← he]; simp
-        exact ih.trans h1
+      obtain ⟨n, he, _⟩ := write_diskSeq P z w st ts h
+      have h1 : diskSeq (write P z w st ts) ++ written ops <:+ diskSeq w ++ st :: written ops := by
+        refine ⟨(w.sink.created.take n).flatMap (content w.fs), ?_⟩
+        rw [← List.append_assoc, ← he]; simp
+      exact ih.trans h1
     | restart c start =>
       simp only [run, written, step]
       simp only [step] at ih
@@ -106,12 +105,12 @@ theorem C14_index_sequence (P : Params) (z : Nat → Int) (fs0 : FS) (hd : DirOK
     diskSeq (run P z (restart z fs0 c0 start0) ops) <:+ diskSeq (restart z fs0 c0 start0) ++ written ops :=
   run_sequence P z ops _ (restart_inv z fs0 c0 start0 hd hc0) hops
 
-/-- one write, precisely: the statement is appended; what disappears is nothing, or the whole oldest file when
-    overwriting is on and `_created_files.size() > max_backup_files` -/
+/-- one write, precisely: the statement is appended; what disappears is nothing (`n = 0`), or the whole `n` oldest files
+    when overwriting is on and `_created_files.size() > max_backup_files` (one file with the `if`, every file in excess
+    with the repaired `while`) -/
 theorem C14_index_write (P : Params) (z : Nat → Int) (w : World) (st : Stmt) (ts : Nat) (h : IndexInv w) :
-    diskSeq (write P z w st ts) = diskSeq w ++ [st] ∨
-    (w.sink.cfg.overwrite = true ∧ w.sink.created.length > w.sink.cfg.maxBackup ∧
-      ∃ b t, w.sink.created = b :: t ∧ diskSeq w ++ [st] = content w.fs b ++ diskSeq (write P z w st ts)) :=
+    ∃ n, diskSeq w ++ [st] = (w.sink.created.take n).flatMap (content w.fs) ++ diskSeq (write P z w st ts) ∧
+      (n = 0 ∨ (w.sink.cfg.overwrite = true ∧ w.sink.created.length > w.sink.cfg.maxBackup)) :=
   write_diskSeq P z w st ts h
 
 /-- **Exactly one file.** If the statements on disk and the new one are pairwise distinct, then after the write every
@@ -122,10 +121,9 @@ theorem C14_index_exactly_one_file (P : Params) (z : Nat → Int) (w : World) (s
     (hn : (diskSeq w ++ [st]).Nodup) :
     (diskSeq (write P z w st ts)).Nodup ∧ ∃ pre, (write P z w st ts).fs.get curName = some (pre ++ [st]) := by
   constructor
-  · rcases write_diskSeq P z w st ts h with he | ⟨_, _, b, t, _, he⟩
-    · rw [he]; exact hn
-    · rw [he] at hn
-      exact (List.nodup_append.mp hn).2.1
+  · obtain ⟨n, he, _⟩ := write_diskSeq P z w st ts h
+    rw [he] at hn
+    exact (List.nodup_append.mp hn).2.1
   · obtain ⟨pre, h1, _⟩ := write_cur P z w st ts h.curInv
     exact ⟨pre, h1⟩
 
@@ -147,6 +145,16 @@ theorem C14_index_backup_bound_run (P : Params) (z : Nat → Int) :
     have h2 := write_cfg P z w x.1 x.2
     have := C14_index_backup_bound_run P z l (write P z w x.1 x.2) (by rw [h2]; omega)
     rwa [h2] at this
+
+/-- **Backup bound, repaired deletion loop** (`deletesAllExcess`, extracted: `while`). A write whose trigger fires and
+    whose rotation takes place leaves at most `max_backup_files` rotated files — even when the start had recovered more
+    (limit lowered, files already present): the bound no longer depends on what was there before (F18). With
+    overwriting off nothing is deleted and rotation stops instead (`stopped`). -/
+theorem C14_index_backup_bound_after_rotation (P : Params) (hP : P.deletesAllExcess = true) (z : Nat → Int) (w : World)
+    (st : Stmt) (ts : Nat) (hdue : timeDue w ts ∨ sizeDue w st.size ts) (hr : rotates w) :
+    (write P z w st ts).sink.created.length - 1 ≤ w.sink.cfg.maxBackup := by
+  have := write_count_all P z w st ts hP hdue hr
+  omega
 
 /-- **No clobbering.** In a state satisfying the invariant every `rename` of `_rotate_files` finds its target absent
     at the moment it is performed. -/
@@ -178,7 +186,7 @@ theorem C14_limit (P : Params) (z : Nat → Int) (w : World) (st : Stmt) (ts : N
   obtain ⟨cont, hc, hsz⟩ := h
   by_cases hdue : timeDue w ts ∨ sizeDue w st.size ts
   · have hs := prepare_due P z w st.size ts hdue
-    rcases rotate_cur z w ts with h1 | ⟨h1, _, _, _, _⟩
+    rcases rotate_cur P z w ts with h1 | ⟨h1, _, _, _, _⟩
     · -- `_rotate_files` returned early
       by_cases hst : stopped w.sink = true
       · exact Or.inr (Or.inl hst)
@@ -187,7 +195,7 @@ theorem C14_limit (P : Params) (z : Nat → Int) (w : World) (st : Stmt) (ts : N
           by_cases hb : bytes cont = 0
           · exact hb
           · have hst' : stopped w.sink = false := by simpa using hst
-            have := rotate_eq z w ts cont hst' hc hb
+            have := rotate_eq P z w ts cont hst' hc hb
             rw [h1] at this
             have h2 := congrArg (fun x => x.fs.get curName) this
             simp only [FS.get_put, ↓reduceIte, hc, Option.some.injEq] at h2
@@ -219,8 +227,8 @@ theorem C14_unrelated_untouched (P : Params) (z : Nat → Int) (w : World) (op :
     · rw [hs.fs]
       by_cases hr : rotates w
       · obtain ⟨hns, cont, hc, hb⟩ := hr
-        exact (rotate_index z w ts cont h hns hc hb).frame _ (fun s k' => by simp)
-      · rw [rotate_of_not_rotates z w ts h hr]
+        exact (rotate_index P z w ts cont h hns hc hb).frame _ (fun s k' => by simp)
+      · rw [rotate_of_not_rotates P z w ts h hr]
   | restart c start =>
     have hs := hsch c start rfl
     have hne : Name.foreign k ≠ curName := by simp [curName]
@@ -329,7 +337,7 @@ def dayNs : Nat := 86400 * NS
     name ("earlier date is older") the directory gives 2, 1, 3. -/
 theorem C14_F14_nonmonotone_order_fails :
     let c : Cfg := { scheme := .date, limit := 10, append := false }
-    let w := run ⟨true⟩ zGmt (restart zGmt [] c (2 * dayNs))
+    let w := run Params.repaired zGmt (restart zGmt [] c (2 * dayNs))
       [.write ⟨1, 8⟩ (2 * dayNs + 5), .write ⟨2, 8⟩ (1 * dayNs + 7), .write ⟨3, 8⟩ (3 * dayNs)]
     w.sink.created = [⟨some 2, 0⟩, ⟨some 1, 0⟩, curInfo] ∧
       w.fs.get (.file (some 1) 0) = some [⟨2, 8⟩] ∧ w.fs.get (.file (some 2) 0) = some [⟨1, 8⟩] ∧
@@ -340,22 +348,30 @@ theorem C14_F14_nonmonotone_order_fails :
     in append mode 100 s later) leaves two rotated files on disk while the sink tracks one. -/
 theorem C14_F15_restart_bound_fails :
     let c : Cfg := { scheme := .dateTime, limit := 10, maxBackup := 1, overwrite := true, append := true }
-    let w1 := run ⟨true⟩ zGmt (restart zGmt [] c (5 * NS)) [.write ⟨1, 8⟩ (5 * NS), .write ⟨2, 8⟩ (6 * NS)]
-    let w2 := run ⟨true⟩ zGmt (restart zGmt w1.fs c (105 * NS)) [.write ⟨3, 8⟩ (106 * NS)]
+    let w1 := run Params.repaired zGmt (restart zGmt [] c (5 * NS)) [.write ⟨1, 8⟩ (5 * NS), .write ⟨2, 8⟩ (6 * NS)]
+    let w2 := run Params.repaired zGmt (restart zGmt w1.fs c (105 * NS)) [.write ⟨3, 8⟩ (106 * NS)]
     w2.fs.get (.file (some 5) 0) = some [⟨1, 8⟩] ∧ w2.fs.get (.file (some 105) 0) = some [⟨2, 8⟩] ∧
       w2.sink.created = [⟨some 105, 0⟩, curInfo] ∧ w2.sink.cfg.maxBackup = 1 := by
   decide
 
-/-- **F16.** Index scheme: three rotated files left by a run with `max_backup_files = 3`; restarted in append mode with
-    `max_backup_files = 1`, every rotation deletes one file and adds one — three rotated files remain for ever. -/
-theorem C14_F16_lowered_max_never_shrinks :
+/-- **F18** (repaired by a `fix:` commit: `if` → `while`). Index scheme: three rotated files left by a run with
+    `max_backup_files = 3`; restarted in append mode with `max_backup_files = 1`. With the pinned one-deletion-per-rotation
+    rule every rotation deletes one file and adds one — three rotated files remain for ever; with the repaired loop the
+    first rotation brings the set down to the limit, and what is on disk is still a suffix of what was written. -/
+theorem C14_F18_lowered_max_never_shrinks :
     let c3 : Cfg := { limit := 10, maxBackup := 3, append := false }
     let c1 : Cfg := { limit := 10, maxBackup := 1, append := true }
-    let w1 := run ⟨true⟩ zGmt (restart zGmt [] c3 0)
-      [.write ⟨1, 8⟩ 1, .write ⟨2, 8⟩ 2, .write ⟨3, 8⟩ 3, .write ⟨4, 8⟩ 4]
-    let w2 := run ⟨true⟩ zGmt (restart zGmt w1.fs c1 10) [.write ⟨5, 8⟩ 11, .write ⟨6, 8⟩ 12]
+    let hist1 : List Op := [.write ⟨1, 8⟩ 1, .write ⟨2, 8⟩ 2, .write ⟨3, 8⟩ 3, .write ⟨4, 8⟩ 4]
+    let hist2 : List Op := [.write ⟨5, 8⟩ 11, .write ⟨6, 8⟩ 12]
+    let pinned : Params := { advancesFromSchedule := true, deletesAllExcess := false }
+    let w1 := run pinned zGmt (restart zGmt [] c3 0) hist1
+    let w2 := run pinned zGmt (restart zGmt w1.fs c1 10) hist2
+    let r1 := run Params.repaired zGmt (restart zGmt [] c3 0) hist1
+    let r2 := run Params.repaired zGmt (restart zGmt r1.fs c1 10) hist2
     w1.sink.created.length = 4 ∧ w2.sink.created.length = 4 ∧ w2.sink.cfg.maxBackup = 1 ∧
-      diskSeq w2 = [⟨3, 8⟩, ⟨4, 8⟩, ⟨5, 8⟩, ⟨6, 8⟩] := by
+      diskSeq w2 = [⟨3, 8⟩, ⟨4, 8⟩, ⟨5, 8⟩, ⟨6, 8⟩] ∧
+      r1.sink.created.length = 4 ∧ r2.sink.created.length = 2 ∧ diskSeq r2 = [⟨5, 8⟩, ⟨6, 8⟩] ∧
+      r2.fs.keys.length = 2 := by
   decide
 
 /-! ### non-vacuity -/
@@ -378,15 +394,15 @@ example :
     let fs0 : FS := [(.file (some 0) 0, [⟨7, 3⟩]), (.foreign 2, [])]
     let l : List (Stmt × Nat) := [(⟨1, 8⟩, dayNs + 1), (⟨2, 8⟩, dayNs + 2), (⟨3, 8⟩, dayNs + 3), (⟨4, 8⟩, 2 * dayNs)]
     c.scheme ≠ .index ∧ fs0.keys.Nodup ∧ MonoSfx zGmt c.scheme (sfxVal zGmt c.scheme dayNs) l ∧
-      (run ⟨true⟩ zGmt (restart zGmt fs0 c dayNs) (l.map (fun p => Op.write p.1 p.2))).sink.created =
+      (run Params.repaired zGmt (restart zGmt fs0 c dayNs) (l.map (fun p => Op.write p.1 p.2))).sink.created =
         [⟨some 1, 2⟩, ⟨some 1, 1⟩, ⟨some 1, 0⟩, curInfo] := by
   refine ⟨by decide, by decide, ⟨by decide, by decide⟩, by decide⟩
 
 /-- the hypotheses of the per-write theorems are met by a reachable state in which a rotation deletes a file -/
 example :
     let c : Cfg := { limit := 10, maxBackup := 1, append := true }
-    let w := run ⟨true⟩ zGmt (restart zGmt [(.foreign 1, [])] c 0) [.write ⟨1, 8⟩ 1, .write ⟨2, 8⟩ 2]
-    (diskSeq w ++ [(⟨3, 8⟩ : Stmt)]).Nodup ∧ diskSeq (write ⟨true⟩ zGmt w ⟨3, 8⟩ 3) = [⟨2, 8⟩, ⟨3, 8⟩] ∧
+    let w := run Params.repaired zGmt (restart zGmt [(.foreign 1, [])] c 0) [.write ⟨1, 8⟩ 1, .write ⟨2, 8⟩ 2]
+    (diskSeq w ++ [(⟨3, 8⟩ : Stmt)]).Nodup ∧ diskSeq (write Params.repaired zGmt w ⟨3, 8⟩ 3) = [⟨2, 8⟩, ⟨3, 8⟩] ∧
       w.sink.cfg.limit ≠ 0 := by
   decide
 
